@@ -55,6 +55,7 @@ def run(chk):
                                     simulate={"num": 250 if quick else 5000, "depth": 12})
     dup = duplicates(r.out)
     chk.cov["distinct_nontrivial"] = max(0, chk.cov["distinct_nontrivial"] - dup)
+    gc.box_objects(chk, "c15", 3 if quick else 5)
     chk.assumptions += [
         "angles k*pi/2 are rounded to f32 by construction of the input (the boxes are then almost, not exactly, "
         "axis-aligned): the area tolerance is widened by the measured rounding x perimeter",
